@@ -286,7 +286,7 @@ STATIC char const * _soxr_init(
   double tbw_tighten = 1, alpha;
   #define tighten(x) (Fs0-(Fs0-(x))*tbw_tighten)
 
-  double arbM = io_ratio, Fn1, Fp1 = Fp0, Fs1 = Fs0, bits1 = min(bits,33);
+  double arbM = io_ratio, Fn1, Fp1 = Fp0, Fs1 = Fs0, bits1 = range_limit(bits,0,33);
   double att = (bits1 + 1) * linear_to_dB(2.), attArb = att; /* +1: pass+stop */
   int preL = 1, preM = 1, shr = 0, arbL = 1, postL = 1, postM = 1;
   bool upsample=false, rational=false, iOpt=!(r_spec->flags&SOXR_NOSMALLINTOPT);
